@@ -509,6 +509,44 @@ class GeoInterp:
         except GeoKeyError as e:
             return ('X', f'raise KeyError({e})')
 
+    def call_inplace(self, fn: Func, bound: Dict[str, Any], depth: int = 4):
+        """denotation of a method that updates its receiver (a pose) field by field before
+        returning: attribute stores on the first parameter are applied in program order, each
+        right-hand side being read in the state left by the earlier stores"""
+        w = self.walk_of(fn)
+        me = fn.node.args.args[0].arg
+        env = dict(bound)
+        try:
+            for e in w.events:
+                if e.kind == 'attrstore' and isinstance(e.target, ast.Attribute) and \
+                        src(e.target.value) == me:
+                    if not self.holds(strip_iter(e.guard), env, fn.module, w, depth):
+                        continue
+                    cur = env[me]
+                    if cur[0] != 'T' or e.target.attr not in ('position', 'orientation') \
+                            or e.value is None:
+                        raise AnalysisError(f'{fn.short}: in-place update of `{src(e.target)}` '
+                                            f'outside the grammar')
+                    v = self.eval(self._expand_here(w, e.value, env, fn.module, depth), env,
+                                  fn.module, depth)
+                    env[me] = ('T', v, cur[2]) if e.target.attr == 'position' \
+                        else ('T', cur[1], v)
+                elif e.kind in ('store', 'augstore', 'delete'):
+                    raise AnalysisError(f'{fn.short}: store `{src(e.stmt)[:60]}` outside the '
+                                        f'grammar of in-place pose updates')
+                elif e.kind in ('return', 'raise'):
+                    if self.holds(strip_iter(e.guard), env, fn.module, w, depth):
+                        if e.kind == 'raise':
+                            return ('X', 'raise ' + (src(e.value) if e.value is not None
+                                                     else ''))
+                        if e.value is None:
+                            return NONE
+                        return self.eval(self._expand_here(w, e.value, env, fn.module, depth),
+                                         env, fn.module, depth)
+        except GeoKeyError as ex:
+            return ('X', f'raise KeyError({ex})')
+        return NONE
+
     def _call(self, fn: Func, bound: Dict[str, Any], depth: int = 4):
         w = self.walk_of(fn)
         for e in w.events:
